@@ -22,7 +22,9 @@ RULE = ("histories of 1-8 (quick) / 1-20 (thorough) public transformation calls 
 TRUSTED = ["harness/c13.py, harness/tcommon.py + driver JSON glue",
            "cos/sin(k*pi/2) of the code are within 2^-50 of the exact integers used by the model (compared with 2^-40 relative bound)"]
 ASSUMPTIONS = ["dyadic arguments: translate/scale steps are exact in binary64; rotation steps carry float cos/sin error"]
-UNPROVED = ["operand/receiver immutability and 'returns self' are runtime facts: stated as model requirements, observed on the real code by snapshots"]
+UNPROVED = ["operand/receiver immutability and 'returns self' are runtime facts: stated as model requirements, observed on the real code by snapshots",
+            "mesh/field level in-place == copy: complete equivalence (same acceptance, same state, whole histories) is proved for the non-periodic bc ('' / neumann / dirichlet); for periodic bc inplace_eq_copy_mesh states it up to the constructor's bc validity check and lower-casing (rotBc keeps bcOk: not proved)",
+            "the mesh/field-level form theorems assume SubInv in exact arithmetic: in binary64 the copying form re-validates subregions with an absolute 1e-12 tolerance and can reject where the in-place form succeeds (known finding D18) - observed by the harness, outside the rational model"]
 BUDGET = {"quick": 90, "thorough": 900}
 
 
@@ -220,7 +222,10 @@ def compare(case, obs, rs):
     if not rs:
         return dis
     res = rs[0]
+    global _MAG
+    _MAG = Fraction(1)           # largest magnitude met so far in the history: rounding errors are relative to it
     for si, (st, mr) in enumerate(zip(obs["steps"], res)):
+        _MAG = _history_mag(_MAG, case["ops"][si], mr)
         if (st["st"] == "ok") != ("ok" in mr):
             dis.append(f"step {si} {case['ops'][si]}: impl {st['st']} ({st.get('why', '')}) vs model {mr if 'ok' not in mr else 'ok'}")
             return dis  # later steps act on different objects
@@ -232,8 +237,36 @@ def compare(case, obs, rs):
     return dis
 
 
+_MAG = Fraction(1)
+
+
+def _coords_of(j):
+    out = []
+    if isinstance(j, dict):
+        for k, v in j.items():
+            if k in ("pmin", "pmax"):
+                out += [abs(F(x)) for x in v]
+            elif k in ("region", "mesh", "subs", "ret", "recv", "ok"):
+                out += _coords_of(v)
+    elif isinstance(j, list):
+        for v in j:
+            out += _coords_of(v)
+    return out
+
+
+def _history_mag(mag, op, mr):
+    """running bound on the magnitudes that enter the float computation of this step: reference point, vector,
+    coordinates before and after, stretched by the factor (`ref - (ref - pmin) * f` is computed at that magnitude)"""
+    vals = [Fraction(float(x)) for key in ("ref", "v") for x in (op.get(key) or [])]
+    f = op.get("f")
+    fs = [abs(Fraction(float(x))) for x in (f if isinstance(f, list) else [f])] if f is not None else []
+    stretch = max(fs + [Fraction(1)])
+    here = max([abs(v) for v in vals] + _coords_of(mr) + [Fraction(0)])
+    return max(mag, stretch * (here + mag))
+
+
 def _reg(name, a, b, dis, rel=Fraction(1, 2**40)):
-    sc = max([abs(F(x)) for x in b["pmin"] + b["pmax"]] + [Fraction(1)])
+    sc = max([abs(F(x)) for x in b["pmin"] + b["pmax"]] + [Fraction(1), _MAG])
     for key in ("pmin", "pmax"):
         if len(a[key]) != len(b[key]) or any(abs(F(x) - F(y)) > rel * sc for x, y in zip(a[key], b[key])):
             dis.append(f"{name}: {key} impl {[float(F(x)) for x in a[key]]} vs model {[float(F(x)) for x in b[key]]}")
